@@ -277,6 +277,7 @@ WITNESS_SRC = """module m
   parameter (p3 = '<b>y')
   integer, bind(c, name="a<b>c") :: bv
   integer :: nv = 1
+  type(t_t(4, merge(1, 2, k<n .and. n>k))) :: pc
   character(len=9) :: nlc = '<u>x</u>'
   character(len=*), parameter :: lit1 = '<u>x</u>' // "a  b & c"
   type :: t_t
@@ -319,7 +320,7 @@ WITNESS_SRC = """module m
 contains
   subroutine s(a) bind(c, name="s<u>name")
     integer, intent(in) :: a
-    namelist /nl/ kk, nv, nlc
+    namelist /nl/ kk, nv, nlc, pc
   end subroutine s
   subroutine s2(a) bind(c, name="two  blanks")
     integer, intent(in) :: a
@@ -329,6 +330,10 @@ contains
     integer(kind=kind(k<n)) :: r
     r = x
   end function f
+  function mkbox(a, b) result(res)
+    integer, intent(in) :: a, b
+    type(t_t) :: res(merge(1, 2, a<b), merge(1, 2, b>a))
+  end function mkbox
   character(len=len("re<s>")) function fl()
     fl = "x"
   end function fl
@@ -363,6 +368,16 @@ def witness_facts():
         facts["probe:macros.html:var.attribs | join(\", \") | e#1"] = r is None or "k<n" not in r
         r = row("kk")
         facts["probe:macros.html:var.full_type | relurl(page_url)#1"] = r is None or "kind(k<n)" not in R.squash(r)
+        # declarations whose displayed type links to a type of the project (link + source text through relurl)
+        r = row("pc")
+        facts["fixed:linked-type-text/module-variable"] = r is None or "type(t_t(4,merge(1,2,k<n.and.n>k)))" not in R.squash(r)
+        rvm = [R.squash(R.browser_text(h)).replace(",", "") for h in soup.find_all(["h3", "h4"])
+               if R.browser_text(h).startswith("Return Value")]
+        facts["fixed:linked-type-text/function-result"] = not any("type(t_t)(merge(12a<b)merge(12b>a))" in x for x in rvm)
+        rvp = [R.squash(R.browser_text(h)).replace(",", "") for h in
+               BeautifulSoup(_page(doc, "proc/mkbox.html"), "html.parser").find_all(["h3", "h4"])
+               if R.browser_text(h).startswith("Return Value")]
+        facts["fixed:linked-type-text/function-result-page"] = not any("type(t_t)(merge(12a<b)merge(12b>a))" in x for x in rvp)
         r = row("frel")
         facts["fixed:initial-relational-truncated"] = r is None or "=1<=2" not in R.squash(r)
         r = row("feq")
@@ -415,6 +430,7 @@ def witness_facts():
         nl = BeautifulSoup(_page(doc, "namelist/nl.html"), "html.parser")
         t = R.squash(R.browser_text(nl))
         facts["probe:macros.html:variable.full_type | relurl(page_url)#1"] = "integer(kind=kind(k<n))" not in t
+        facts["fixed:linked-type-text/namelist-member"] = "type(t_t(4,merge(1,2,k<n.and.n>k)))" not in t
         facts["probe:macros.html:variable.initial | e#1"] = "'<u>x</u>'" not in t or bool(nl.find_all("u"))
     return facts
 
